@@ -1001,5 +1001,12 @@ V('C19', 'join-default-from-table-only', 'silent', '', "--join defaults to the f
   ('src/pyhf/cli/spec.py', "    '--join',\n    default='none',\n", "    '--join',\n    default=Workspace.valid_joins[0],\n"))
 V('C19', 'valid-joins-reordered-only', 'silent', '', 'Workspace.valid_joins reordered (the option keeps its literal default)',
   ('src/pyhf/workspace.py', "    valid_joins: ClassVar[list[str]] = ['none', 'outer', 'left outer', 'right outer']\n", "    valid_joins: ClassVar[list[str]] = ['outer', 'left outer', 'right outer', 'none']\n"))
+V('C10', 'reshape-flatten-through-memory-order-ravel', 'fire', 'C10.R8', 'numpy reshape delegates (-1,) to ravel AND ravel flattens in memory order',
+  ('src/pyhf/tensor/numpy_backend.py', '        return np.reshape(tensor, newshape)\n', '        if newshape == (-1,):\n            return self.ravel(tensor)\n        return np.reshape(tensor, newshape)\n'),
+  ('src/pyhf/tensor/numpy_backend.py', '        return np.ravel(tensor)\n', '        return np.ravel(tensor, order="K")\n'))
+V('C10', 'reshape-flatten-through-row-major-ravel', 'silent', '', 'numpy reshape delegates (-1,) to the row-major ravel',
+  ('src/pyhf/tensor/numpy_backend.py', '        return np.reshape(tensor, newshape)\n', '        if newshape == (-1,):\n            return self.ravel(tensor)\n        return np.reshape(tensor, newshape)\n'))
+V('C01', 'tf-clip-as-min-of-max', 'fire', 'C01.R15', "tensorflow clip rewritten as minimum(maximum(t, lo), hi) with the upper bound still substituted by the tensor's maximum",
+  ('src/pyhf/tensor/tensorflow_backend.py', '        return tf.clip_by_value(tensor_in, min_value, max_value)\n', '        return tf.minimum(tf.maximum(tensor_in, min_value), max_value)\n'))
 V("C13", "code4-exponent-mask-strict", "fire", "C13.R3", "code 4 takes exponent 1 (a constant) exactly at |alpha| = alpha0",
   ("src/pyhf/interpolators/code4.py", "            exponents >= self.__alpha0, exponents, self.ones", "            exponents > self.__alpha0, exponents, self.ones"))
